@@ -270,3 +270,6 @@ UNITS = [
 
 from . import standins
 STANDINS = [standins.c05_tables]
+
+from . import C05init     # noqa: E402
+UNITS = UNITS + C05init.UNITS      # coupling invariant of ThermochemIncomplete (constructor / _setup_correlation), default-table frame
